@@ -1224,8 +1224,13 @@ def run(tier, seed):
                 "generic instance, closure, deferred closure on return and on panic, deferred direct, promoted method), as "
                 "statements, as for-post statements and inside && / || / argument sub-expressions; P' is compiled ONCE and run "
                 "under Node for every schedule (all subsets for <= 4 (quick) / 6 (thorough) sites, else corner + random "
-                "schedules); compared with the flattened-machine trace of the Lean driver and with native Go; a case is "
-                "non-trivial when at least one site is enabled")
+                "schedules); about half of the functions beyond F0 are D functions: 1-4 deferred calls (closure, direct with "
+                "pointer argument, method) that yield and modify the params/locals the call-free return expression reads, "
+                "unnamed and named results, 1-2 results, returns inside loops/switch, defers inside loops, panics recovered "
+                "by a yielding deferred closure (named results; the unnamed case is the recorded finding, replayed as a fixed "
+                "witness), results printed by the caller, all subsets of the yield sites inside deferred calls when <= 3 (5); "
+                "compared with the flattened-machine trace of the Lean driver (incl. the $24r / $callDeferred protocol model) "
+                "and with native Go; a case is non-trivial when at least one site is enabled")
     chk.trusted = ["Lean 4.33 kernel; axioms at most propext, Classical.choice, Quot.sound",
                    "hand-written models GV.Model.Ctrl/Flat/Blocking tied to statements.go/functions.go/expressions.go/analysis by "
                    "the skeleton, frame and Decl.Blocking scans of the emitted artefacts and by the program runs",
@@ -1233,8 +1238,9 @@ def run(tier, seed):
     chk.assumptions = ["callee frames are abstracted: a call is (effect on the store, number of suspensions); partial effects of a "
                        "suspended callee are not observable by its suspended callers (no other goroutine is runnable — the "
                        "property's own side condition)",
-                       "expression-level flattening (&&, ||, argument order), deferred calls, goto, select/channel operations and "
-                       "range loops are exercised by compiled programs only, not by the Lean theorem",
+                       "deferred calls are modelled as a layer (GV.Model.RetDefer: return protocol after the body reached `return`), "
+                       "&& / || / argument temporaries as code-shape lemmas; goto, select/channel operations, range loops and the "
+                       "unified code list of a blocking return are exercised by compiled programs only",
                        "V8/Node and the native Go toolchain behave per their specifications"]
     C.build_gvh("gvh_c02")
     chk.proof = C.check_proofs("C02", THEOREMS, tier)
